@@ -61,7 +61,17 @@ func setDurationField(field reflect.Value, fieldType reflect.Type, isPtr bool, v
 }
 
 // deserializeParams reads row 0 from a record batch into a Go struct.
-func deserializeParams(batch arrow.RecordBatch, target reflect.Type) (reflect.Value, error) {
+func deserializeParams(batch arrow.RecordBatch, target reflect.Type) (result reflect.Value, err error) {
+	// The IPC reader validates neither buffer contents (offsets, child
+	// lengths) nor the schema of an embedded payload against the Go type it
+	// is bound to, and this runs outside the handler's recover: a malformed
+	// parameter batch must come back as an error, never as a panic that
+	// escapes the serve loop.
+	defer func() {
+		if r := recover(); r != nil {
+			result, err = reflect.Value{}, fmt.Errorf("parameter batch could not be decoded: %v", r)
+		}
+	}()
 	if target.Kind() == reflect.Ptr {
 		target = target.Elem()
 	}
@@ -115,7 +125,7 @@ func deserializeParams(batch arrow.RecordBatch, target reflect.Type) (reflect.Va
 		return reflect.Value{}, fmt.Errorf("parameter batch has no rows")
 	}
 
-	result := reflect.New(target).Elem()
+	result = reflect.New(target).Elem()
 
 	for ord, fd := range desc.Fields {
 		info := fd.Info
